@@ -37,6 +37,9 @@ func PathValues(p protopath.Path, m proto.Message) (protopath.Values, error) {
 					"%d: cursor has descriptor %T, want MessageDescriptor or FieldDescriptor that holds a "+
 						"MessageDescriptor", i, desc)
 			}
+			if _, ok := cursor.Interface().(protoreflect.Message); !ok {
+				return protopath.Values{}, fmt.Errorf("%d: cursor holds %T, not a message whose field can be accessed", i, cursor.Interface())
+			}
 			fd := step.FieldDescriptor()
 			desc = md.Fields().ByNumber(fd.Number())
 			if desc == nil {
@@ -72,6 +75,8 @@ func PathValues(p protopath.Path, m proto.Message) (protopath.Values, error) {
 			if !cursor.IsValid() {
 				return protopath.Values{}, fmt.Errorf("%d: cursor map missing key %v", i, step.MapIndex())
 			}
+			// The cursor is now at a map value, so later steps are relative to the value's type.
+			desc = fd.MapValue()
 			v.Values = append(v.Values, cursor)
 		case protopath.AnyExpandStep:
 			if desc != step.MessageDescriptor() {
